@@ -858,7 +858,7 @@ func (m *Model) RunTextFlow(s *Sink, rule string) {
 					}
 				}
 			}
-			if !seenTerm {
+			if !seenTerm && !m.everyPathSeesTerminator(sc, b, func(c *ssa.Call) bool { return isTerm(c, "strings.HasPrefix") }) {
 				ok = false
 			}
 		}
@@ -869,6 +869,105 @@ func (m *Model) RunTextFlow(s *Sink, rule string) {
 			s.Violation(rule, fnKey(sc)+"|a comment ends only at --}}", m.Pos(sc.Pos()), "skipComment can report the comment as terminated without having seen the full terminator --}}: text inside or after a comment is misinterpreted")
 		}
 	}
+}
+
+// everyPathSeesTerminator: does every path from the entry of fn to block target pass the true edge of a test that the
+// rest of the input starts with the terminator (isTermCall)? Path by path, with one more thing known along a path:
+// whether the current character is NUL (from the tests of l.char against 0 the path has passed, forgotten at every call
+// that may read) — a loop left "because the input ended or the terminator was found", followed by "input ended: not
+// terminated", leaves only the paths on which the terminator was found.
+func (m *Model) everyPathSeesTerminator(fn *ssa.Function, target *ssa.BasicBlock, isTermCall func(*ssa.Call) bool) bool {
+	type state struct {
+		b    *ssa.BasicBlock
+		seen bool
+		zero int // 0 unknown, 1 the current character is NUL, 2 it is not
+	}
+	charTest := func(v ssa.Value) (isTest bool, trueMeansZero bool) {
+		bo, ok := v.(*ssa.BinOp)
+		if !ok || (bo.Op != token.EQL && bo.Op != token.NEQ) {
+			return false, false
+		}
+		for _, pr := range [][2]ssa.Value{{bo.X, bo.Y}, {bo.Y, bo.X}} {
+			k, isK := pr[1].(*ssa.Const)
+			if isCharLoad(pr[0]) && isK && k.Value != nil && k.Int64() == 0 {
+				return true, bo.Op == token.EQL
+			}
+		}
+		return false, false
+	}
+	visited := map[state]bool{}
+	bad := false
+	var walk func(st state)
+	walk = func(st state) {
+		if bad || visited[st] {
+			return
+		}
+		visited[st] = true
+		if st.b == target {
+			if !st.seen {
+				bad = true
+			}
+			return
+		}
+		zero := st.zero
+		for _, in := range st.b.Instrs {
+			if c, isC := in.(*ssa.Call); isC {
+				if sc := c.Call.StaticCallee(); sc == nil || shortPkg(fnPkgPath(sc)) == "lexer" {
+					zero = 0 // may read
+				}
+			}
+		}
+		last := st.b.Instrs[len(st.b.Instrs)-1]
+		ifi, isIf := last.(*ssa.If)
+		if !isIf {
+			for _, nx := range st.b.Succs {
+				walk(state{nx, st.seen, zero})
+			}
+			return
+		}
+		cond, neg := ifi.Cond, false
+		for {
+			u, isU := cond.(*ssa.UnOp)
+			if !isU || u.Op != token.NOT {
+				break
+			}
+			cond, neg = u.X, !neg
+		}
+		if c, isC := cond.(*ssa.Call); isC && isTermCall(c) {
+			tIdx := 0
+			if neg {
+				tIdx = 1
+			}
+			walk(state{st.b.Succs[tIdx], true, zero})
+			walk(state{st.b.Succs[1-tIdx], st.seen, zero})
+			return
+		}
+		if isT, tz := charTest(cond); isT {
+			if neg {
+				tz = !tz
+			}
+			// successor 0 is taken when the condition holds
+			zeroOn := func(i int) int {
+				if (i == 0) == tz {
+					return 1
+				}
+				return 2
+			}
+			for i := 0; i < 2; i++ {
+				z := zeroOn(i)
+				if zero != 0 && zero != z {
+					continue // infeasible on this path
+				}
+				walk(state{st.b.Succs[i], st.seen, z})
+			}
+			return
+		}
+		for _, nx := range st.b.Succs {
+			walk(state{nx, st.seen, zero})
+		}
+	}
+	walk(state{fn.Blocks[0], false, 0})
+	return !bad
 }
 
 // RunDirMode: after a directive keyword the lexer enters code mode exactly when the parser will read parentheses there.
